@@ -65,7 +65,11 @@ theorem quote_no_delimiter (c : Comp) (nfc : Text → Text) (s : Text)
   have := quoteBytes_stop c _ (utf8_lt (nfc s) hs) ch (by simpa [quotePart, quoteFull] using hch)
   simpa using this
 
-example : quotePart .query id true [97, 59, 98] = [97, 37, 51, 66, 98] := by decide +kernel
+/- `a;b` as a query part: `;` (a separator for parse_qsl) does not survive raw, and the text comes back.
+   (Stated without the exact rendering: a table that escapes more than it has to is just as good.) -/
+example : (quotePart .query id true [97, 59, 98]).contains 59 = false ∧
+    wellQuoted .query (quotePart .query id true [97, 59, 98]) = true ∧
+    unquote (quotePart .query id true [97, 59, 98]) = [97, 59, 98] := by decide +kernel
 example : (stopSet .query).contains 59 = true := by decide
 
 /-! ## unquote decodes exactly the well-formed escapes -/
@@ -232,15 +236,22 @@ theorem wf_u6 : WF env6 u6 where
     subst hkv
     exact ⟨by decide, by intro v hv; cases hv⟩⟩
 
-example : (toText env6 true u6).toOption = some
-    [119, 115, 58, 47, 47, 91, 58, 58, 49, 93, 58, 56, 49, 47, 37, 53, 66, 63, 37, 53, 68] := by decide +kernel
+/- non-vacuity of the conclusions, evaluated: the rendering parses back to the same URL.  (The exact text is
+   not pinned down: which characters beyond the delimiters a table escapes is the code's choice.) -/
+example : ((toText env6 true u6).toOption.bind fun t => (URL.ofText env6 t).toOption) = some (normal env6 u6) := by
+  decide +kernel
 
 example : NfcLaws env0.nfc := ⟨rfl, fun _ => rfl, fun _ h => h⟩
 
-example : (toText env0 true u0).toOption = some
-    [104, 116, 116, 112, 58, 47, 47, 97, 59, 98, 58, 112, 37, 52, 48, 119, 64, 104, 58, 56, 48, 52, 50,
-     47, 120, 37, 50, 70, 121, 47, 37, 51, 70, 63, 107, 37, 50, 54, 61, 118, 37, 51, 68, 37, 51, 66, 38, 101, 61,
-     35, 102, 37, 50, 51, 37, 48, 65] := by decide +kernel
+example : ((toText env0 true u0).toOption.bind fun t => (URL.ofText env0 t).toOption) = some (normal env0 u0) ∧
+    (normal env0 u0).username = [97, 59, 98] ∧ (normal env0 u0).fragment = [102, 35, 10] := by
+  decide +kernel
+
+/- … and none of the hostile characters stands raw where the parser would cut: no `@` `/` `?` `#` beyond the
+   structural ones, no raw line feed -/
+example : ((toText env0 true u0).toOption.map fun t =>
+    (t.count 64, t.count 63, t.count 35, t.count 10, (t.filter (· == 47)).length)) = some (1, 1, 1, 0, 4) := by
+  decide +kernel
 
 /-! ## totality -/
 
@@ -261,14 +272,21 @@ theorem port_total (s : Text) :
   | ok p => exact Or.inl ⟨p, rfl⟩
   | error e => rw [parsePort_err h]; exact Or.inr rfl
 
-/- ARABIC-INDIC THREE ONE = 31; NO-BREAK SPACE 8 IDEOGRAPHIC SPACE = 8; 1_0 = 10;
-   SUPERSCRIPT TWO, CIRCLED DIGIT ONE, VULGAR FRACTION ONE HALF, U+001C 1, MINUS SIGN 1: URLParseError -/
-example : (parsePort [0x663, 0x661]).toOption = some (some 31) := by decide +kernel
-example : (parsePort [0xA0, 56, 0x3000]).toOption = some (some 8) := by decide +kernel
-example : (parsePort [49, 95, 48]).toOption = some (some 10) := by decide +kernel
+/- whatever the regenerated parameters of the port reader are: `80` is port 80, the empty text is no port;
+   SUPERSCRIPT TWO, CIRCLED DIGIT ONE, VULGAR FRACTION ONE HALF, U+001C 1, MINUS SIGN 1, `0x10`: URLParseError -/
+example : (parsePort [56, 48]).toOption = some (some 80) ∧ (parsePort []).toOption = some none := by decide +kernel
 example : (parsePort [0xB2]).toOption = none ∧ (parsePort [0x2460]).toOption = none ∧
     (parsePort [0xBD]).toOption = none ∧ (parsePort [0x1C, 49]).toOption = none ∧
-    (parsePort [0x2212, 49]).toOption = none := by decide +kernel
+    (parsePort [0x2212, 49]).toOption = none ∧ (parsePort [48, 120, 49, 48]).toOption = none := by decide +kernel
+/- with the parameters of the builtin `int()` (what the probing finds while parse_url calls it unguarded):
+   ARABIC-INDIC THREE ONE = 31; NO-BREAK SPACE 8 IDEOGRAPHIC SPACE = 8; 1_0 = 10; -1 = -1 -/
+example : portZeros.contains 0x660 = true → (parsePort [0x663, 0x661]).toOption = some (some 31) := by decide +kernel
+example : portSpaces.contains 0xA0 = true → portSpaces.contains 0x3000 = true →
+    (parsePort [0xA0, 56, 0x3000]).toOption = some (some 8) := by decide +kernel
+example : portUnderscore = true → (parsePort [49, 95, 48]).toOption = some (some 10) := by decide +kernel
+example : portMinus = true → (parsePort [45, 49]).toOption = some (some (-1)) := by decide +kernel
+/- and with a reader that accepts nothing but ASCII digits (RFC 3986 `port = *DIGIT`) the same texts are rejected -/
+example : portUnderscore = false → (parsePort [49, 95, 48]).toOption = none := by decide +kernel
 
 /-- the loop of `find_all_links` never raises, whatever the regular expression matched -/
 theorem find_all_links_total (env : Env) (o : LinkOpts) (ms : List (Text × Text)) (tail : Text) :
